@@ -110,6 +110,10 @@ Theorem C10round_ast_of_faithful : ast_of_faithful_stmt.
 Proof. exact ast_of_faithful. Qed.
 Print Assumptions C10round_ast_of_faithful.
 
+Theorem C10round_ast_of_block_types : ast_of_block_types_stmt.
+Proof. exact ast_of_block_types. Qed.
+Print Assumptions C10round_ast_of_block_types.
+
 Theorem C10round_ast_of_spans_select : ast_of_spans_select_stmt.
 Proof. exact ast_of_spans_select. Qed.
 Print Assumptions C10round_ast_of_spans_select.
